@@ -132,7 +132,9 @@ def run(prop: str, tier: str, write_evidence: bool = True, scale: float = 1.0):
                     if us[ui].get('mainmod') and x < 0.5:
                         backend = 'spawn'      # what matters for a main-module type is crossing into a spawned interpreter
                     ops.append({'op': 'run', 'req': h['req'], 'bust': bool(h['bust']), 'backend': backend, 'fail': h.get('fail', []),
-                                'newproc': bool(i > 0 and rnd.random() < T['newproc_prob'])})
+                                'newproc': bool(i > 0 and rnd.random() < T['newproc_prob']),
+                                # a clock too coarse to tell the start of a run from its end (recorded duration: exactly zero)
+                                'frozen_clock': bool(backend != 'spawn' and rnd.random() < 0.12)})
                 else:
                     ops.append({'op': 'uncache', 'ts': h['ts']})
             provider = T['providers'][k % len(T['providers'])]
